@@ -10,6 +10,8 @@ Open Scope nat_scope.
 
 (* ================================================================ Part 1: lines and the writer *)
 
+Arguments split_lines : simpl never.
+
 Definition no_nl (s : bytes) : Prop := ~ In NL s.
 Definition is_line (l : bytes) : Prop := exists body, l = body ++ [NL] /\ no_nl body.
 
@@ -69,7 +71,7 @@ Proof.
   - destruct Hl as [Hl|Hl]; auto. apply N.eqb_eq in E; subst.
     exists []; split; auto. intros [].
   - destruct ls as [|l0 ls]; simpl in Hl; [destruct Hl|].
-    destruct Hl as [Hl|Hl]; auto. subst.
+    destruct Hl as [Hl|Hl]; [|apply IH; right; auto]. subst.
     destruct (IH l0 (or_introl eq_refl)) as [body [Hb Hn]]. subst.
     exists (c :: body); split; auto. intros [H|H]; [|apply Hn; auto].
     subst; rewrite N.eqb_refl in E; discriminate.
@@ -157,6 +159,14 @@ Proof.
   rewrite <- (IH full _ (off + S ge')). reflexivity.
 Qed.
 
+Lemma ms_seq_inv : forall a b s p c s2 p2 c2, ms (Seq a b) s p c s2 p2 c2 ->
+  exists s1 p1 c1, ms a s p c s1 p1 c1 /\ ms b s1 p1 c1 s2 p2 c2.
+Proof. intros a b s p c s2 p2 c2 H; inversion H; subst; eauto 6. Qed.
+
+Lemma ms_grp_inv : forall g a s p c s1 p1 c', ms (Grp g a) s p c s1 p1 c' ->
+  exists c1, c' = (g, (p, p1)) :: c1 /\ ms a s p c s1 p1 c1.
+Proof. intros g a s p c s1 p1 c' H; inversion H; subst; eauto. Qed.
+
 Section Loop.
   Variables L A R : re.
   Let full := Seq L (Seq (Grp 1 A) R).
@@ -185,30 +195,32 @@ Section Loop.
   Proof.
     intros s st en cs H. unfold match_here in H. apply bt_sound in H.
     destruct H as (s1 & p1 & c1 & Hm & Hk). unfold kdone in Hk. inversion Hk; subst.
-    unfold full in Hm. inversion Hm; subst. inversion H10; subst. inversion H9; subst.
-    rename H8 into HL, H11 into HR, H13 into HA.
+    unfold full in Hm.
+    apply ms_seq_inv in Hm. destruct Hm as (sa & pa & ca & HL & Hm).
+    apply ms_seq_inv in Hm. destruct Hm as (sb & pb & cb & HG & HR).
+    apply ms_grp_inv in HG. destruct HG as (cg & Ecb & HA). subst cb.
     pose proof (ms_maxlen _ _ _ _ _ _ _ HL HsfL) as HmaxL.
     destruct (ms_suffix _ _ _ _ _ _ _ HL) as (wl & El & Pl).
     destruct (ms_matches _ _ _ _ _ _ _ HA HafA) as (w & Ew & Pw & Mw).
-    exists p0, p4, w. repeat split; auto; try lia.
+    exists pa, pb, w. repeat split; auto; try lia.
     - rewrite (ms_no_grp 1 _ _ _ _ _ _ _ HR HgR). simpl. reflexivity.
-    - intros Hnil; subst. apply nullable_correct in Mw. rewrite Mw in HnullA; discriminate.
-    - exists wl, s4. subst. split; auto.
+    - intros Hnil; subst w. apply nullable_correct in Mw. rewrite Mw in HnullA; discriminate.
+    - exists wl, sb. subst. split; auto.
   Qed.
 
   (* an attempt right before a delimited word of A succeeds *)
   Lemma match_here_delim : forall d w post st,
     is_delim d = true -> matches A w -> (post = [] \/ exists e post', post = e :: post' /\ is_delim e = true) ->
-    match_here full (d :: w ++ post) (S st) <> None.
+    match_here full (d :: w ++ post) st <> None.
   Proof.
     intros d w post st Hd Hw Hpost. unfold match_here.
-    destruct (matches_ms L [d] (HdelimL d Hd) (w ++ post) (S st) []) as [c1 M1].
-    destruct (matches_ms A w Hw post (S st + 1) c1) as [c2 M2].
+    destruct (matches_ms L [d] (HdelimL d Hd) (w ++ post) st []) as [c1 M1].
+    destruct (matches_ms A w Hw post (st + 1) c1) as [c2 M2].
     simpl in M1.
-    assert (HR : exists s3 p3 c3, ms R post (S st + 1 + length w) ((1, (S st + 1, S st + 1 + length w)) :: c2) s3 p3 c3).
+    assert (HR : exists s3 p3 c3, ms R post (st + 1 + length w) ((1, (st + 1, st + 1 + length w)) :: c2) s3 p3 c3).
     { destruct Hpost as [Hp|(e & post' & Hp & He)]; subst.
-      - destruct (ne_ms R HeolR (S st + 1 + length w) ((1, (S st + 1, S st + 1 + length w)) :: c2)) as [c3 M3]; eauto.
-      - destruct (matches_ms R [e] (HdelimR e He) post' (S st + 1 + length w) ((1, (S st + 1, S st + 1 + length w)) :: c2)) as [c3 M3].
+      - destruct (ne_ms R HeolR (st + 1 + length w) ((1, (st + 1, st + 1 + length w)) :: c2)) as [c3 M3]; eauto.
+      - destruct (matches_ms R [e] (HdelimR e He) post' (st + 1 + length w) ((1, (st + 1, st + 1 + length w)) :: c2)) as [c3 M3].
         simpl in M3; eauto. }
     destruct HR as (s3 & p3 & c3 & M3).
     eapply bt_complete; [|apply full_star_free|].
@@ -254,7 +266,7 @@ Section Loop.
     assert (Hex : exists k0, k0 <= length pre /\ length pre <= k0 + 1 /\ k0 <= length s /\
                              match_here full (skipn k0 s) (0 + k0) <> None).
     { destruct Hl as [Hp|(pre' & d & Hp & Hd)].
-      - exists 0. subst pre. simpl. repeat split; try lia. apply match_here_bol; auto.
+      - exists 0. subst pre. unfold s; simpl. repeat split; try lia. apply (match_here_bol w post); auto.
       - exists (length pre'). subst pre. unfold s. rewrite !app_length; simpl.
         repeat split; try lia.
         rewrite <- !app_assoc. rewrite skipn_app, skipn_all, Nat.sub_diag; simpl.
